@@ -41,7 +41,7 @@ def bounds(tier):
 def cases(tier):
     terms = gen.corpus(tier, families=FAMS, depth=2, coarse=(True if tier == "thorough" else 2))
     if tier != "thorough":
-        terms = terms[:22000] + terms[22000::3]
+        terms = terms[:22000:2] + terms[22000::4]
     out = [["term", e] for e in terms]
     reps = 3 if tier == "thorough" else 2
     for r in range(reps):
